@@ -1,4 +1,5 @@
 import Mimium.Model.Pretty
+import Mimium.Model.NewlineRule
 /-! `drv_c14`: line protocol driver for C14 (layout-engine model).
 Input line: `width \t tree [\t anything]`; output line: hex of the UTF-8 bytes of `render width tree`, then
 `\t` number of newline pieces `\t` number of content pieces.
@@ -71,8 +72,33 @@ def hexDigit (n : Nat) : Char := if n < 10 then Char.ofNat (48 + n) else Char.of
 def toHex (s : String) : String :=
   String.ofList (s.toUTF8.toList.flatMap (fun b => [hexDigit (b.toNat / 16), hexDigit (b.toNat % 16)]))
 
+open Mimium.NewlineRule in
+def tkOf (c : Char) : Option TK :=
+  match c with
+  | 'a' => some .atom
+  | 'm' => some .minus
+  | '(' => some .lparen
+  | ')' => some .rparen
+  | '[' => some .lbrack
+  | ']' => some .rbrack
+  | '.' => some .dot
+  | ',' => some .comma
+  | 'X' => some (.op 10)
+  | c => if '2' ≤ c ∧ c ≤ '9' then some (.op (c.toNat - 48)) else none
+
+/-- `P \t classes \t nlbits ...` → shape of the model's tree, then `\t` 1 if the model recorded an error -/
+def nlLine (cls bits : String) : String :=
+  match cls.toList.mapM tkOf with
+  | some ts =>
+    let bs := bits.toList.toArray
+    let nl := fun (i : Nat) => bs.getD i '0' == '1'
+    let sh := (Mimium.NewlineRule.parse ts nl).show
+    s!"{sh}\t{if sh.contains '!' then 1 else 0}"
+  | none => "bad-input"
+
 def c14Line (line : String) : String :=
   match line.splitOn "\t" with
+  | "P" :: cls :: bits :: _ => nlLine cls bits
   | w :: t :: _ =>
     match w.toNat?, parseDoc t.toList with
     | some w, some (d, []) =>
